@@ -432,6 +432,7 @@ def run_life(rp, choices, scratch):
             obs.append({'wp': wst, 'queued': len(w._result_queue.items), 'in_pool': dp.pid in w._pool,
                         'held': any(w._resources['cores']), 'answers': len(w._res_put.items), 'watcher': watcher_alive})
     finally:
+        ctl.close()
         wd.mp, wd.os = saved_mp, saved_os
         if saved_spt is not None: sys.modules['setproctitle'] = saved_spt
         else: sys.modules.pop('setproctitle', None)
